@@ -110,6 +110,10 @@ class Stack:
     def _send_message(self, can_id, extended_id, data, fd_format=False):
         d = [int(x) for x in data]
         sim = self.sim
+        if getattr(sim, 'tx_time', 0):
+            # bus-time mode (oracle-only runs, no correspondence): handing a frame to the bus takes time, the clock the
+            # calling thread reads afterwards has advanced (assumption A2 "zero-duration handlers" is lifted)
+            sim.now += sim.tx_time
         sim.trace.append((sim.now, self.idx, 'tx', can_id, bool(extended_id), bool(fd_format), tuple(d),
                           tuple((ca._device_address_state, ca._device_address) for ca in self.cas)))
         self.emit([T_TX, can_id, 1 if extended_id else 0, 1 if fd_format else 0, len(d)] + d)
@@ -159,6 +163,7 @@ class Stack:
             n = 1
         self.job_iters_at = (int(now), n)
         self.in_job = True
+        self.job_start = (int(now), len(self.oplog))
         self.begin(('job', int(now)))
 
     def _job_end_if_needed(self, loop=False, tts=None):
@@ -166,12 +171,20 @@ class Stack:
         # while the job handler is pending unless nested, in which case in_job stays True)
         if self.in_job and self.sim.current is self.job and (loop or tts is not None):
             self.in_job = False
+            self._job_elapsed()
             self.end(int(tts) if tts is not None else 0)
 
     def on_job_wait(self, timeout):
         if self.in_job:
             self.in_job = False
+            self._job_elapsed()
             self.end(us(timeout) if timeout is not None else -1)
+
+    def _job_elapsed(self):
+        # an iteration that took time (a slow application callback): the log entry of the iteration records it
+        now0, idx = getattr(self, 'job_start', (None, None))
+        if now0 is not None and self.sim.now > now0 and idx < len(self.oplog) and self.oplog[idx][0] == 'B' and self.oplog[idx][1][0] == 'job':
+            self.oplog[idx] = ('B', ('job', now0, int(self.sim.now - now0)))
 
     # ------------------------------------------------------------------ application side
     def cb(self, cid, kind='sub', ret=None, script=None):
